@@ -53,6 +53,7 @@ def configs(tier, seed):
     for R in ((5,) if q else (5, 7)):
         out += [dict(name="train sparse_combo R=%d" % R, h="train", R=R, model="combo"),
                 dict(name="train interaction R=%d" % R, h="train", R=R, model="inter"),
+                dict(name="interaction effect table with replicates R=%d" % R, h="effects", R=R, model="inter"),
                 dict(name="two batches sparse_combo R=%d" % R, h="batches", R=R, model="combo"),
                 dict(name="two batches interaction R=%d" % R, h="batches", R=R, model="inter"),
                 dict(name="refuse sparse_combo R=%d" % R, h="refuse", R=R, model="combo"),
@@ -180,6 +181,53 @@ def h_train(ctx, cfg):
             ref = sps.logit(np.clip(np.array([obs_sym[i]], dtype=float).astype(np.float32), a_min=0.01, a_max=0.99)).tolist()[0]
             ctx.prove(ctx.eq(ys[k], ref), "training target = logit(clip(observation, 0.01, 0.99))", key="combo: target transformation")
     return used
+
+
+ROWS_REP = [("s1", "a", 1.0, "", 0.0, "p0"), ("s1", "a", 1.0, "", 0.0, "p1"), ("s1", "a", 1.0, "", 0.0, "p2"), ("s1", "", 0.0, "b", 1.0, "p0"),
+            ("s1", "a", 1.0, "b", 1.0, "p1"), ("s2", "a", 1.0, "", 0.0, "p2"), ("s2", "a", 1.0, "", 0.0, "p3"), ("s2", "b", 1.0, "a", 1.0, "p3")]
+
+
+def h_effects(ctx, cfg):
+    """the interaction model's single-agent effect table is what it documents: for every (sample, treatment) the mean of
+    the observed single-agent measurements (three replicates for one pair, on different plates), 1 for control - and
+    nothing from masked rows"""
+    np = ctx.np
+    rows = ROWS_REP
+    R = len(rows)
+    pnames = sorted(set(r[5] for r in rows))
+    pstat = {p: ctx.is_true(ctx.bool("pm%d" % i)) for i, p in enumerate(pnames)}
+    mask = [pstat[r[5]] for r in rows]
+    if not any(mask):
+        ctx.assume(False)
+    obs_sym = [ctx.real("ob%d" % i, nonneg=True) for i in range(R)]
+    full = concrete_screen(ctx, rows, observations=obs_sym, mask=[True] * R)
+    screen = concrete_screen(ctx, rows, observations=[obs_sym[i] if mask[i] else (Poison() if ctx.symbolic else float("nan")) for i in range(R)], mask=mask)
+    m = _mk_model(ctx, "inter", full)
+    try:
+        m.add_observations(screen.subset_observed())
+    except PoisonUsed:
+        ctx.fail("a masked observation value was read while training the model", key="inter: masked value read during training")
+    lookup = {(int(a), int(b)): v for (a, b), v in m.single_effect_lookup.items()}
+    sid, tid = full.sample_ids.tolist(), full.treatment_ids.tolist()
+    groups = {}
+    for i in range(R):
+        nonctrl = [t for t in tid[i] if t != -1]
+        if mask[i] and len(nonctrl) == 1:
+            groups.setdefault((sid[i], nonctrl[0]), []).append(obs_sym[i])
+    for key, vals in groups.items():
+        ctx.prove(key in lookup, "an observed single-agent measurement yields an entry of the effect table")
+        if key in lookup:
+            total = 0.0
+            for v in vals:
+                total = total + v
+            ctx.prove(ctx.eq(lookup[key] * len(vals), total), "single-agent effect = mean of the observed single-agent measurements (replicates included)",
+                      key="inter: single-agent effect is not the mean of the observed replicates")
+    for (s_, t_), v in lookup.items():
+        if t_ == -1:
+            ctx.prove(ctx.eq(v, 1.0), "the control effect is 1")
+        else:
+            ctx.prove((s_, t_) in groups, "no effect entry without an observed single-agent measurement", key="inter: effect entry from unobserved data")
+    return len(groups)
 
 
 def h_batches(ctx, cfg):
@@ -383,4 +431,4 @@ def h_pipeline(ctx, cfg):
 
 
 def run(ctx, cfg):
-    return {"train": h_train, "batches": h_batches, "refuse": h_refuse, "pipeline": h_pipeline}[cfg["h"]](ctx, cfg)
+    return {"train": h_train, "effects": h_effects, "batches": h_batches, "refuse": h_refuse, "pipeline": h_pipeline}[cfg["h"]](ctx, cfg)
